@@ -124,7 +124,7 @@ FNS = [
     fn("consume_movable", impl=IMPL_SUB, props=["C01", "C02", "C05", "C13"],
        sig="pub fn consume_movable(&mut self) -> (r: Option<u64>)", sig_anchor=r"fn consume_movable\(&self\) -> Option<SlotType>",
        rules=[CLOSURE_FALSE, UNLOCK,
-              Rule("R7-read", r"let item = unsafe \{ Some\(ptr::read\(slot_ref\)\) \};", "self.slot_read(slot_ref); let item = Some(0u64);", count=1, note="ptr::read -> slot_read (ghost: moved out under the lock); the value itself is decided by back end K")],
+              Rule("R7-read", r"unsafe \{ Some\(ptr::read\(slot_ref\)\) \}", "{ self.slot_read(slot_ref); Some(0u64) }", count=1, note="ptr::read -> slot_read (ghost: moved out under the lock); the value itself is decided by back end K")],
        requires="!old(self).held@",
        ensures="!final(self).held@,"
                "r is Some ==> final(self).at_release@ == (final(self).at_acquire@.0.wrapping_add(1), final(self).at_acquire@.1) && final(self).at_acquire@.0 != final(self).at_acquire@.1,"
